@@ -366,17 +366,17 @@ fn run_backend<B: Backend>(args: &Args, m: &mut Monitor, real_aead: bool, cs_nam
     let ovh = env.ovh();
     m.max("max_overhead", ovh as u64);
 
-    let mut lengths: Vec<usize> = if miri { vec![0, 1, 15, 16, 17, 40] } else { vec![0, 1, 2, 7, 8, 15, 16, 17, 23, 24, 25, 31, 32, 33, 63, 64, 65, 255, 256, 257, 1023, 1024, 4095, 4096] };
-    let extra = if miri { args.n(100, 400) } else { args.n(400, 8000) };
+    let mut lengths: Vec<usize> = if miri { vec![0, 1, 17] } else { vec![0, 1, 2, 7, 8, 15, 16, 17, 23, 24, 25, 31, 32, 33, 63, 64, 65, 255, 256, 257, 1023, 1024, 4095, 4096] };
+    let extra = if miri { args.n(100, 400) - 1 } else { args.n(400, 8000) };
     for _ in 0..extra {
         lengths.push(match rng.below(4) {
             0 => rng.urange(0, 40),
-            1 => rng.urange(0, 300),
-            _ => rng.urange(0, if miri { 96 } else { 4096 }),
+            1 => rng.urange(0, if miri { 40 } else { 300 }),
+            _ => rng.urange(0, if miri { 40 } else { 4096 }),
         });
     }
-    let all_below = if miri { 48 } else { 160 };
-    let samples = if miri { 4 } else { 24 };
+    let all_below = if miri { 0 } else { 160 };
+    let samples = if miri { 2 } else { 24 };
 
     for (li, &len) in lengths.iter().enumerate() {
         let p = rng.bytes(len);
@@ -393,7 +393,7 @@ fn run_backend<B: Backend>(args: &Args, m: &mut Monitor, real_aead: bool, cs_nam
         if li < 3 {
             m.sample(|| json!({"backend": B::NAME, "cs": cs_name, "plaintext_len": len, "seq": seq, "ciphertext_len": ct.len(), "negatives": "flips, truncations 0.., extensions, foreign, reseq, random"}));
         }
-        let full = len <= 64 || li % 8 == 0;
+        let full = !miri && (len <= 64 || li % 8 == 0);
 
         // --- every single-byte flip ------------------------------------------------------
         for i in positions(&mut rng, ct.len(), all_below, ovh + 2, samples) {
@@ -403,8 +403,14 @@ fn run_backend<B: Backend>(args: &Args, m: &mut Monitor, real_aead: bool, cs_nam
             m.count("neg_flips", 1);
         }
         // --- every truncation from 0 bytes up --------------------------------------------
-        let mut cuts: Vec<usize> = if ct.len() <= all_below { (0..ct.len()).collect() } else { (0..ovh + 3).collect() };
-        if ct.len() > all_below {
+        let mut cuts: Vec<usize> = if ct.len() <= all_below {
+            (0..ct.len()).collect()
+        } else if miri {
+            vec![0, 1, HDR - 1, HDR, HDR + 1, ovh - 1, ovh, ovh + 1].into_iter().filter(|&n| n < ct.len()).collect()
+        } else {
+            (0..(ovh + 3).min(ct.len())).collect()
+        };
+        if ct.len() > all_below && !miri {
             cuts.push(ct.len() - 1);
             cuts.push(ct.len() - HDR);
             cuts.push(ct.len() - ovh);
@@ -422,12 +428,13 @@ fn run_backend<B: Backend>(args: &Args, m: &mut Monitor, real_aead: bool, cs_nam
                 m.count("neg_shorter_than_header_plus_tag", 1);
             }
             // ... and keep the back (valid trailer, body cut away).
-            if n > 0 && (len <= 64 || n <= ovh + 2) {
+            if n > 0 && !miri && (len <= 64 || n <= ovh + 2) {
                 env.check_reject(m, &format!("trunc_front:{n}"), &ct[ct.len() - n..], Target::O1, None, false);
             }
         }
         // --- extensions --------------------------------------------------------------------
-        for k in [1usize, 8, 24] {
+        for k in if miri { &[1usize][..] } else { &[1usize, 8, 24][..] } {
+            let k = *k;
             let mut x = ct.clone();
             x.extend(rng.bytes(k));
             env.check_reject(m, &format!("extend_back:{k}"), &x, Target::O1, Some(&p), false);
@@ -461,9 +468,10 @@ fn run_backend<B: Backend>(args: &Args, m: &mut Monitor, real_aead: bool, cs_nam
     // --- random byte strings of every small length --------------------------------------------
     let rounds = if miri { 1 } else { args.n(6, 60) };
     for _ in 0..rounds {
-        for n in 0..=ovh + 40 {
+        let lens: Vec<usize> = if miri { vec![0, 5, HDR, 12, ovh, ovh + 6] } else { (0..=ovh + 40).collect() };
+        for n in lens {
             let x = rng.bytes(n);
-            env.check_reject(m, &format!("random:{n}"), &x, Target::O1, None, true);
+            env.check_reject(m, &format!("random:{n}"), &x, Target::O1, None, !miri);
             m.count("neg_random", 1);
         }
         for _ in 0..if miri { 1 } else { 8 } {
